@@ -253,13 +253,9 @@ Section Levels.
                       | None => Err (EBadValue [] key)
                       end
                   | extra =>
-                      (* not a class spec: with init_args/dict_kwargs present it is refused as such; otherwise the
-                         whole mapping is taken as init_args of the implicit class_path (the base class, which
-                         has no parameters) *)
-                      match assoc s_init_args l, assoc s_dict_kwargs l with
-                      | None, None => pushr (map K key) (nested [] (CDict l))
-                      | _, _ => Err (EBadSpec [] key extra)
-                      end
+                      (* not a class spec (is_subclass_spec): a mapping that has its own class_path is never wrapped as the
+                         init_args of the implicit / previous class (56814dd), it is refused as "Not a valid subclass" *)
+                      Err (EBadSpec [] key extra)
                   end
               | _ => Err (EBadValue [] key)      (* implicit class_path: not modelled *)
               end
@@ -269,6 +265,36 @@ Section Levels.
       end
     end.
 End Levels.
+
+(* _apply_actions (a58b0fc): below a key that has no action the queue descends into every mapping; a mapping WITHOUT any
+   key, at a key that is neither an action, a branch key nor a registered group, is refused on the spot with
+   "Key '<dotted key>' is not expected" — validate would never see it (Namespace.keys() yields leaves only).
+   The queue is breadth-first: of several empty mappings the shallowest is met first, ties in key order. *)
+Fixpoint empties (pre : list str) (v : cv) : list (list str) :=
+  match v with
+  | CDict l =>
+      match l with
+      | [] => [pre]
+      | _ => (fix go (l : list (str * cv)) := match l with [] => [] | (k, w) :: t => empties (pre ++ [k]) w ++ go t end) l
+      end
+  | _ => []
+  end.
+
+Fixpoint shallowest (best : option (list str)) (l : list (list str)) : option (list str) :=
+  match l with
+  | [] => best
+  | x :: t =>
+      match best with
+      | Some b => if Nat.ltb (length x) (length b) then shallowest (Some x) t else shallowest best t
+      | None => shallowest (Some x) t
+      end
+  end.
+
+Definition empty_err (pre : list str) (v : cv) : res :=
+  match shallowest None (empties pre v) with
+  | None => Ok
+  | Some key => Err (EUnknown [] FKey key)
+  end.
 
 (* _apply_actions: depth-first over the mapping, parsing the values of the actions met (lenient) *)
 Section Apply.
@@ -283,7 +309,7 @@ Section Apply.
                bind (match assoc k fs with
                      | Some (DGroup fs') | Some (DData _ fs') => apply_walk fs' (pre ++ [k]) w
                      | Some d => chk (pre ++ [k]) d w
-                     | None => Ok
+                     | None => empty_err (pre ++ [k]) w
                      end) (go t)
            end) l
     | _ => Ok
@@ -387,10 +413,11 @@ Definition top_apply (chk : list str -> decl -> cv -> res) (p : parser) (l : lis
          match l with
          | [] => Ok
          | (k, w) :: t =>
-             bind (match assoc k (s_map sb) with
-                   | Some sa => apply_walk chk sa [k] w
-                   | None => apply_walk chk (p_args p) [] (CDict [(k, w)])
-                   end) (go t)
+             bind (if str_eqb k (s_dest sb) then Ok     (* the subcommand key is the dest of the subcommands action *)
+                   else match assoc k (s_map sb) with
+                        | Some sa => apply_walk chk sa [k] w
+                        | None => apply_walk chk (p_args p) [] (CDict [(k, w)])
+                        end) (go t)
          end) l
   end.
 
@@ -458,6 +485,21 @@ Fixpoint unrequire (path : list str) (d : decl) {struct d} : decl :=
                   | [] => []
                   | (k', d') :: t => (k', if str_eqb k k' then unrequire rest d' else d') :: go t
                   end) fs)
+  | k :: k2 :: rest, DClass r cls =>
+      (* target w.init_args.<param> below a class-typed argument: the per-class parser of EVERY class of w is built with
+         linked_targets = {<param>...} and drops it from its required_args (ActionTypeHint.get_class_parser) *)
+      if str_eqb k s_init_args
+      then DClass r ((fix gc (cls : list (str * list (str * decl))) :=
+                        match cls with
+                        | [] => []
+                        | (c, ps) :: tc =>
+                            (c, (fix go (fs : list (str * decl)) :=
+                                   match fs with
+                                   | [] => []
+                                   | (k', d') :: t => (k', if str_eqb k2 k' then unrequire rest d' else d') :: go t
+                                   end) ps) :: gc tc
+                        end) cls)
+      else d
   | _, _ => d
   end.
 
@@ -471,3 +513,49 @@ Definition apply_link (p : parser) (l : lnk) : parser :=
   if l_ok l then {| p_args := unrequire_args (l_tgt l) (p_args p); p_sub := p_sub p |} else p.
 
 Definition with_links (p : parser) (ls : list lnk) : parser := fold_left apply_link ls p.
+
+(* ---- the list-append spelling -------------------------------------------------------------------------------
+   A declared List[...] key given as "<key>+" (top level or below dotted groups) denotes the same configuration, but its
+   value reaches the parser through ActionTypeHint.apply_appends, called from merge_config: the appended items are checked
+   by the action at that moment — strictly (required fields of the items enforced), after the lenient _apply_actions
+   pre-pass and BEFORE subcommand handling and validate.  `apps` = the paths of the keys spelled that way. *)
+Fixpoint decl_at (fs : args) (path : list str) : option decl :=
+  match path with
+  | [] => None
+  | k :: rest =>
+      match rest with
+      | [] => assoc k fs
+      | _ => match assoc k fs with Some (DGroup fs') => decl_at fs' rest | _ => None end
+      end
+  end.
+
+Definition append_checks (fuel : nat) (p : parser) (cfg : cv) (apps : list (list str)) : res :=
+  fold_right (fun path r =>
+                bind (match decl_at (p_args p) path, get cfg path with
+                      | Some d, Some v => chk_action (nested fuel false) path d v
+                      | _, _ => Ok
+                      end) r) Ok apps.
+
+Fixpoint drop_path (path : list str) (v : cv) {struct path} : cv :=
+  match path, v with
+  | [], _ => v
+  | k :: rest, CDict l =>
+      match rest with
+      | [] => CDict (remove_keys [k] l)
+      | _ => CDict (map (fun kw => if str_eqb k (fst kw) then (fst kw, drop_path rest (snd kw)) else kw) l)
+      end
+  | _, _ => v
+  end.
+
+(* "<key>+" is not the destination of any action, so the lenient pre-pass does not look at the appended value at all: the
+   first check it meets is the strict one at merge time *)
+Definition run_append (md : mode) (fuel : nat) (p : parser) (cfg : cv) (apps : list (list str)) : res :=
+  match cfg with
+  | CDict _ =>
+      bind (match fold_left (fun v path => drop_path path v) apps cfg with
+            | CDict l0 => top_apply (chk_action (nested fuel true)) p l0
+            | _ => Ok
+            end)
+           (bind (append_checks fuel p cfg apps) (run md fuel p cfg))
+  | _ => run md fuel p cfg
+  end.
